@@ -995,6 +995,87 @@ async fn scenario(mon: &Monitor, rng: &mut Rng, idx: u64) {
     mon.count("submissions.total", w.subs);
 }
 
+/// Tightly aligned submitters: OS threads released by a spinning rendezvous all submit the same
+/// next-expected number for a peer that already has state. A check-then-act window of a few
+/// instructions (no await point inside) only opens under this kind of alignment.
+fn spin_races(mon: &Monitor, seed: u64) {
+    use std::sync::atomic::{AtomicUsize, Ordering};
+    use std::sync::Arc;
+    let threads = 8usize;
+    let rounds = mon.by_tier(4000u64, 60000);
+    let dir = std::env::temp_dir().join(format!("verif-c12-spin-{}-{seed}", std::process::id()));
+    let _ = std::fs::create_dir_all(&dir);
+    let path = dir.join("counters.bin");
+    let rt = tokio::runtime::Builder::new_current_thread().enable_all().build().expect("rt");
+    let Ok(sys) = rt.block_on(MonotonicCounterSystem::new(path)) else {
+        mon.inconclusive("spin lane: counter store did not open");
+        return;
+    };
+    let sys = Arc::new(sys);
+    let peer = UserId::from_bytes([0x5a; 32]);
+    // give the peer state first (first-contact races run wholly under the write lock)
+    let _ = rt.block_on(sys.validate_sequence(&peer, 1, [1u8; 32]));
+    let gen = Arc::new(AtomicUsize::new(0));
+    let arrived = Arc::new(AtomicUsize::new(0));
+    let wins: Arc<Vec<AtomicUsize>> = Arc::new((0..rounds as usize + 3).map(|_| AtomicUsize::new(0)).collect());
+    let stop_at = rounds as usize;
+    let mut hs = Vec::new();
+    for t in 0..threads {
+        let (sys, peer, gen, arrived, wins) = (sys.clone(), peer.clone(), gen.clone(), arrived.clone(), wins.clone());
+        hs.push(std::thread::spawn(move || {
+            for r in 0..stop_at {
+                // rendezvous: the last arriver opens the round, everybody else spins
+                if arrived.fetch_add(1, Ordering::AcqRel) + 1 == threads * (r + 1) {
+                    gen.store(r + 1, Ordering::Release);
+                } else {
+                    while gen.load(Ordering::Acquire) < r + 1 {
+                        std::hint::spin_loop();
+                    }
+                }
+                let n = (r + 2) as u64;
+                let mut h = [0u8; 32];
+                h[..8].copy_from_slice(&n.to_le_bytes());
+                h[8] = t as u8;
+                let res = futures::executor::block_on(sys.validate_sequence(&peer, n, h));
+                if matches!(res, Ok(Res::Valid)) {
+                    wins[r].fetch_add(1, Ordering::Relaxed);
+                }
+            }
+        }));
+    }
+    for h in hs {
+        let _ = h.join();
+    }
+    let mut multi = 0u64;
+    let mut none = 0u64;
+    let mut worst = 0usize;
+    for r in 0..stop_at {
+        mon.eval();
+        let w = wins[r].load(Ordering::Relaxed);
+        if w > 1 {
+            multi += 1;
+            worst = worst.max(w);
+        }
+        if w == 0 {
+            none += 1;
+        }
+    }
+    mon.case(("spin-race", threads, multi.min(3), none.min(3)));
+    mon.count("spin.rounds", stop_at as u64);
+    if multi > 0 {
+        mon.violation("race/accepted-more-than-once/spin-aligned-os-threads", json!({"rounds": stop_at, "numbers_accepted_more_than_once": multi, "max_winners": worst, "threads": threads}));
+    }
+    if none > 0 {
+        mon.violation("race/next-expected-number-accepted-by-nobody/spin-aligned-os-threads", json!({"rounds": stop_at, "numbers_without_winner": none}));
+    }
+    let last = rt.block_on(sys.get_peer_counter(&peer)).map(|c| c.last_valid_sequence);
+    mon.eval();
+    if last != Some(stop_at as u64 + 1) {
+        mon.violation("race/counter-not-at-last-accepted-number/spin-aligned-os-threads", json!({"last_valid_sequence": last, "expected": stop_at + 1}));
+    }
+    let _ = std::fs::remove_dir_all(&dir);
+}
+
 fn main() {
     let mon = Monitor::new("C12", "exploration");
     mon.set_rule("case = one submission (validate_sequence or one batch_update entry), one race of T tasks on one peer, or one reload check; non-trivial when the peer already has accepted numbers (submission), when >=1 number is submitted by >=2 racers (race), or when numbers were accepted before the checkpoint (reload); distinct by (api, classification, relation of n to last, hash relation, timestamp class, reload generation) / (race pattern, width class, classes seen, generation) / (generation, proven-sync floor, tail lost, history > 1000)");
@@ -1013,6 +1094,7 @@ fn main() {
             }
         });
     });
+    spin_races(&mon, mon.seed);
     // supplementary sanitizer lane (thorough): submissions racing on OS threads under Miri (UB + data races)
     checks::lanes::run(&mon, "miri", "counter", "0..8");
     mon.finish();
